@@ -85,7 +85,7 @@ def work(tasks, idx):
             rp, counter, aaguid = rng.bytes_(32), rng.randrange(2 ** 32), rng.bytes_(16)
             cid = rng.bytes_(rng.choice([0, 1, 16, 32, 64, 255, 256, 1023]))
             cose = c.cose() if flags & 0x40 else None
-            extv = {"ext": rand_ext(rng)} if flags & 0x80 else None
+            extv = ({} if rng.random() < 0.1 else {"ext": rand_ext(rng)}) if flags & 0x80 else None
             ext = cbor2.dumps(extv) if extv is not None else None
             ad = core.auth_data(rp, flags, counter, aaguid=aaguid, cred_id=cid, cose=cose, ext=ext)
             mode = rng.random()
